@@ -52,9 +52,28 @@ def generate_chain_rename(rng):
     return {"world": env, "ops": ops}
 
 
+def generate_many_records(rng):
+    """one generation (and one packing list) with more than two thousand records, spread over ten folders"""
+    from .. import gen
+
+    env = gen.gen_env(rng)
+    env["read_profile"] = "full"
+    tree = {}
+    n = rng.randint(2001, 2060)
+    for i in range(n):
+        d = "reel_%02d" % (i % 10)
+        tree.setdefault(d, {"t": "d"})
+        tree["%s/frame_%06d.dpx" % (d, i)] = {"t": "f", "c": {"gen": [i, 9]}}
+    env["tree"] = tree
+    fm = ["-h", rng.choice(["md5", "xxh64"])]
+    return {"world": env, "ops": [scen.cmd("create", "@R", *fm), scen.cmd("flatten", "@R", "@S/flat")]}
+
+
 def generate(rng, tier):
     if rng.random() < 0.05:
         return generate_chain_rename(rng)
+    if rng.random() < 0.004:
+        return generate_many_records(rng)
     sc = explore.generate(rng, tier, WEIGHTS, hostile=0.25)
     if rng.random() < 0.15:
         # a folder (or file) renamed between two generations sealed with the same format and -dr: previous paths of
